@@ -850,6 +850,33 @@ static void c04_value(uint64_t v) {
             STAT_INC("c04_elias_codewords");
         }
     }
+    /* the bit writer itself: fields of arbitrary width whose value argument still carries bits above the field
+     * (only the low nBits belong to the stream), MSB first, checked against a bit-by-bit model */
+    {
+        uint8_t buf[40], model[40];
+        memset(buf, 0, sizeof buf);
+        memset(model, 0, sizeof model);
+        varintBitWriter bw;
+        varintBitWriterInit(&bw, buf, sizeof buf);
+        size_t pos = 0;
+        uint64_t x = v * 0x9E3779B97F4A7C15ULL + 1;
+        g_ctx = "varintBitWriterWrite";
+        for (int f = 0; f < 12; f++) {
+            x ^= x << 13; x ^= x >> 7; x ^= x << 17;
+            size_t nb = 1 + (size_t)(x % (f & 1 ? 7 : 24));
+            uint64_t val = (f % 3 == 0) ? ~0ULL : (f % 3 == 1 ? x : (x & ((1ULL << nb) - 1)));
+            if (pos + nb > sizeof buf * 8) break;
+            varintBitWriterWrite(&bw, val, nb);
+            for (size_t b = 0; b < nb; b++) {
+                if ((val >> (nb - 1 - b)) & 1) model[(pos + b) / 8] |= (uint8_t)(0x80u >> ((pos + b) % 8));
+            }
+            pos += nb;
+        }
+        if (bw.bitPos != pos || memcmp(buf, model, sizeof buf)) {
+            FAIL("elias", "varintBitWriterWrite", "bits-differ-from-definition", "v=%" PRIu64 " %zu bits written: %s, MSB-first model: %s", v, pos, hexs(buf, 12), hexs(model, 12));
+        }
+        STAT_INC("c04_bit_writer_field_sequences");
+    }
 }
 
 /* per-length maxima: constants, measured encoder behaviour, README tables */
